@@ -28,9 +28,10 @@
      * `jacobian_ok_wf` (S) : whatever `f`, a returning finite-difference Jacobian is a
        well-formed `|f point| × |point|` matrix; `sys_panics_iff_fd` (E) : the finite-difference
        instance, which also covers the empty guess (`sys_fd_empty_guess_panics`);
-     * `sys_evals_before_panic` (S) : see the doc comment — the model's trace is discarded on a
-       panic, the statement is about the completed iterations and the evaluations of the
-       panicking one that the model does trace.
+     * `sys_evals_before_panic` (S), `sys_evals_before_panic_fd` (S) : the model discards the trace
+       of a panicking call, so the count is stated through the completed iterations (a returning
+       run with budget `k`) plus the calls of the panicking iteration; with the finite-difference
+       Jacobian: at most `maxIter * (d + 2)` calls of `f` before the panic, as for returning runs.
   C. `newton_sys_fixed_point_singular(_gen)` (E) : a guess that is an exact root with a singular
      Jacobian there makes every run with `maxIter ≥ 1` PANIC (although the guess solves the system);
      `maxIter = 0` returns `Err(guess)`.  Example `F(x, y) = (x², y)` at `0` over ℚ.
@@ -38,9 +39,11 @@
 import Ohsl.Props.C17A
 import Ohsl.Props.C01C
 import Ohsl.Lemmas.C17C
+import Ohsl.Props.C18J
 set_option linter.unusedSectionVars false
 set_option linter.unusedVariables false
 set_option linter.unusedSimpArgs false
+set_option linter.style.haveILetI false
 namespace Ohsl.Props.C17
 open Ohsl Ohsl.Newton Ohsl.Jac Ohsl.Mat
 
@@ -404,8 +407,8 @@ theorem sys_panics_iff_struct {R : Type} (f : Array E → Array E)
       `L` more times: in both cases the number of evaluations made before the panic is at most
       `maxIter * (1 + L)`, the bound for returning runs (`sys_bounded`).
     The model discards the trace of a panicking call, so the evaluations made INSIDE a Jacobian
-    call that itself panics are not part of this statement (for the finite-difference Jacobian
-    see `C18.jacobian_panic_evals`: at most `d + 1 = L`, so the same bound holds). -/
+    call that itself panics are not part of this statement; for the finite-difference Jacobian
+    they are counted in `sys_evals_before_panic_fd` (through `C18.jacobian_panic_evals`). -/
 theorem sys_evals_before_panic {R : Type} (f : Array E → Array E)
     (jacF : Array E → Res (Mat E × List (Array E)))
     (normInf : Array E → Res R) (leTol : R → Bool) (d L : Nat)
@@ -436,6 +439,51 @@ theorem sys_evals_before_panic {R : Type} (f : Array E → Array E)
     have := hL c J jtr hcd hj
     simp only [List.length_append, List.length_cons, List.length_nil]
     omega
+
+/-- **evaluations before a panic, finite-difference method, class (S)** — no hypothesis on `f`,
+    the element type or `delta`.  If the run panics (class `e`) then for some `k < maxIter`:
+    the first `k` iterations completed (the run with budget `k` returns `Err(c)`) with exactly
+    `k * (d + 2)` evaluations of `f` (`d` the length of the guess), and iteration `k + 1` at `c`
+    panics after `m ≤ d + 2` further calls of `f`:
+    * `m = 1` — the residual `f c` is computed and its inf-norm panics (empty vector); or
+    * `m = j + 3` — the Jacobian call panics in column `j < d`: `f c`, the base value and the
+      columns `0 … j-1` (`C18.jacobian_panic_evals`), and the perturbed value of column `j`; or
+    * `m = d + 2` — the Jacobian call returns (`d + 1` calls) and the linear solve or the update
+      panics.
+    In every case the number of calls of `f` before the panic, `k * (d + 2) + m`, is at most
+    `maxIter * (d + 2)`, the bound of the returning runs (`sys_bounded_fd`). -/
+theorem sys_evals_before_panic_fd {R : Type} (f : Array E → Array E) (delta : E)
+    (normInf : Array E → Res R) (leTol : R → Bool)
+    (n : Nat) (cur : Array E) (tr : List (Array E)) (e : Err)
+    (h : solveSys f (fun x => jacobian f x delta) normInf leTol n cur tr = .error e) :
+    ∃ k c tr' m, k < n ∧ c.size = cur.size ∧
+      solveSys f (fun x => jacobian f x delta) normInf leTol k cur tr = .ok (⟨false, c⟩, tr') ∧
+      tr'.length = tr.length + k * (cur.size + 2) ∧
+      ((normInf (f c) = .error e ∧ m = 1) ∨
+       (∃ j jac, j < c.size ∧
+          Mat.forM' 0 j (C18.jacInit f c) (C18.jacBody f c delta)
+            = .ok (jac, C18.stateAt c delta j, c :: (List.range j).map (C18.evalPt c delta)) ∧
+          C18.jacBody f c delta
+            (jac, C18.stateAt c delta j, c :: (List.range j).map (C18.evalPt c delta)) j = .error e ∧
+          m = j + 3) ∨
+       (∃ J jtr, jacobian f c delta = .ok (J, jtr) ∧ jtr.length = c.size + 1 ∧ m = c.size + 2)) ∧
+      k * (cur.size + 2) + m ≤ n * (cur.size + 2) := by
+  obtain ⟨k, c, tr', hk, hc, hrun, hlen, hs, _⟩ :=
+    sys_evals_before_panic f (fun x => jacobian f x delta) normInf leTol cur.size (cur.size + 1)
+      (fun x J jtr hx hj => by rw [jacobian_trace_length f x delta J jtr hj, hx]) n cur tr e rfl h
+  have e2 : 1 + (cur.size + 1) = cur.size + 2 := by omega
+  rw [e2] at hlen
+  have hmul : (k + 1) * (cur.size + 2) ≤ n * (cur.size + 2) := Nat.mul_le_mul_right _ hk
+  have hexp : (k + 1) * (cur.size + 2) = k * (cur.size + 2) + (cur.size + 2) := by
+    rw [Nat.add_mul]; omega
+  rcases hs with h1 | ⟨r, h1, h2⟩ | ⟨r, J, jtr, h1, h2, h3⟩ | ⟨r, J, jtr, dx, h1, h2, h3, h4⟩
+  · exact ⟨k, c, tr', 1, hk, hc, hrun, hlen, .inl ⟨h1, rfl⟩, by omega⟩
+  · obtain ⟨j, jac, hj, hpre, hbody, _⟩ := C18.jacobian_panic_evals f c delta e h2
+    exact ⟨k, c, tr', j + 3, hk, hc, hrun, hlen, .inr (.inl ⟨j, jac, hj, hpre, hbody, rfl⟩), by omega⟩
+  · exact ⟨k, c, tr', c.size + 2, hk, hc, hrun, hlen,
+      .inr (.inr ⟨J, jtr, h2, jacobian_trace_length f c delta J jtr h2, rfl⟩), by omega⟩
+  · exact ⟨k, c, tr', c.size + 2, hk, hc, hrun, hlen,
+      .inr (.inr ⟨J, jtr, h2, jacobian_trace_length f c delta J jtr h2, rfl⟩), by omega⟩
 
 /-- a successful `set_col` keeps well-formedness and shape -/
 theorem setCol_ok_shape {m m' : Mat E} {col : Nat} {v : Array E} (hw : m.WF)
@@ -488,5 +536,358 @@ theorem jacobian_ok_wf (f : Array E → Array E) (point : Array E) (delta : E)
     simpa using this
 
 end SysPanic
+
+/-! ### B′. the panic branch over a linearly ordered field -/
+section SysPanicE
+variable {K : Type} [Field K] [LinearOrder K] [Transc K]
+attribute [local instance] Ohsl.Alg.scalarExt
+
+/-- determinant of the square matrix of order `J.rows` read off the buffer of `J` (the
+    determinant of `J` when `J` is well-formed and square) -/
+noncomputable def detOf (J : Mat K) : K :=
+  Matrix.det (Matrix.of fun (i j : Fin J.rows) => Mat.ent J i.val j.val)
+
+/-- **when an iteration panics, in terms of the data**: the residual `f x` is the empty vector
+    (`norm_inf` unwraps `None`), or the Jacobian call panics, or the Jacobian it returns is not a
+    square matrix of the order of the residual (size checks of `solve_basic`), or it is singular
+    (`det = 0`: `solve_basic` divides by an exact zero), or the point and the step have different
+    lengths (size check of `current -= dx`). -/
+def StepPanics (f : Array K → Array K) (jacF : Array K → Res (Mat K × List (Array K)))
+    (x : Array K) : Prop :=
+  (f x).size = 0 ∨ (∃ e, jacF x = .error e) ∨
+  ∃ J jtr, jacF x = .ok (J, jtr) ∧
+    (J.rows ≠ (f x).size ∨ J.rows ≠ J.cols ∨ detOf J = 0 ∨ x.size ≠ J.rows)
+
+/-- `norm_inf` panics exactly on the empty vector -/
+theorem normInf_error_iff (v : Array K) : (∃ e, Vec.normInf v = .error e) ↔ v.size = 0 := by
+  unfold Vec.normInf Vec.normInfBy
+  constructor
+  · rintro ⟨e, h⟩
+    by_contra hne
+    have : v[0]? = some v[0] := by simp [show 0 < v.size by omega]
+    rw [this] at h
+    cases h
+  · intro h
+    have : v[0]? = none := by simp [h]
+    rw [this]
+    exact ⟨_, rfl⟩
+
+/-- a returning `solve_basic` passed its two size checks -/
+theorem solveBasic_ok_sizes {J : Mat K} {b dx : Array K} (h : Mat.solveBasic J b = .ok dx) :
+    J.rows = b.size ∧ J.rows = J.cols := by
+  unfold Mat.solveBasic at h
+  split at h
+  · cases h
+  · split at h
+    · cases h
+    · rename_i h1 h2
+      exact ⟨not_not.mp h1, not_not.mp h2⟩
+
+variable [IsStrictOrderedRing K]
+
+/-- **`StepFails` = `StepPanics`** for the model's `Vec.normInf`, over a linearly ordered field,
+    for Jacobian calls that return well-formed matrices (every `Matrix` built by the crate is; for
+    the finite-difference Jacobian this is `jacobian_ok_wf`).  The singular case is
+    `C01.solveBasic_ok_iff`. -/
+theorem stepFails_iff (f : Array K → Array K) (jacF : Array K → Res (Mat K × List (Array K)))
+    (x : Array K) (hWF : ∀ J jtr, jacF x = .ok (J, jtr) → J.WF) :
+    StepFails f jacF Vec.normInf x ↔ StepPanics f jacF x := by
+  constructor
+  · rintro ⟨e, h | ⟨r, h1, h2⟩ | ⟨r, J, jtr, h1, h2, h3⟩ | ⟨r, J, jtr, dx, h1, h2, h3, h4⟩⟩
+    · exact .inl ((normInf_error_iff _).1 ⟨e, h⟩)
+    · exact .inr (.inl ⟨e, h2⟩)
+    · refine .inr (.inr ⟨J, jtr, h2, ?_⟩)
+      by_cases a : J.rows ≠ (f x).size
+      · exact .inl a
+      by_cases b : J.rows ≠ J.cols
+      · exact .inr (.inl b)
+      refine .inr (.inr (.inl ?_))
+      by_contra hdet
+      have a' : (f x).size = J.rows := (not_not.mp a).symm
+      have hpos : 1 ≤ J.rows := by
+        rw [← a']
+        by_contra h0
+        obtain ⟨e', he'⟩ := (normInf_error_iff (f x)).2 (by omega)
+        rw [he'] at h1; cases h1
+      have hJ : Mat.WFn J J.rows := ⟨hWF J jtr h2, rfl, (not_not.mp b).symm⟩
+      obtain ⟨dx, hdx⟩ := C01.solveBasic_complete hpos hJ.is a' hdet
+      rw [hdx] at h3; cases h3
+    · refine .inr (.inr ⟨J, jtr, h2, .inr (.inr (.inr ?_))⟩)
+      obtain ⟨a, b⟩ := solveBasic_ok_sizes h3
+      have hpos : 1 ≤ J.rows := by
+        rw [a]
+        by_contra h0
+        obtain ⟨e', he'⟩ := (normInf_error_iff (f x)).2 (by omega)
+        rw [he'] at h1; cases h1
+      have hJ : Mat.WFn J J.rows := ⟨hWF J jtr h2, rfl, b.symm⟩
+      obtain ⟨hs, _⟩ := C01.solveBasic_sound hpos hJ.is a.symm h3
+      unfold Vec.sub at h4
+      split at h4
+      · rename_i hne
+        rw [hs] at hne
+        exact hne
+      · cases h4
+  · intro hp
+    rcases sys_step_total f jacF Vec.normInf (fun _ => true) x with h | ⟨r, J, jtr, dx, x', h1, h2, h3, h4⟩
+    · exact h
+    · exfalso
+      obtain ⟨a, b⟩ := solveBasic_ok_sizes h3
+      have hpos : 1 ≤ J.rows := by
+        rw [a]
+        by_contra h0
+        obtain ⟨e', he'⟩ := (normInf_error_iff (f x)).2 (by omega)
+        rw [he'] at h1; cases h1
+      have hJ : Mat.WFn J J.rows := ⟨hWF J jtr h2, rfl, b.symm⟩
+      obtain ⟨hs, _⟩ := C01.solveBasic_sound hpos hJ.is a.symm h3
+      rcases hp with h0 | ⟨e, he⟩ | ⟨J', jtr', hj, hc⟩
+      · omega
+      · rw [he] at h2; cases h2
+      · rw [hj] at h2
+        cases h2
+        rcases hc with c | c | c | c
+        · exact c a
+        · exact c b
+        · exact C01.solveBasic_nonsingular hpos hJ.is a.symm h3 c
+        · have : x.size = dx.size := by
+            unfold Vec.sub at h4
+            split at h4
+            · cases h4
+            · rename_i hne; exact not_not.mp hne
+          rw [hs] at this
+          exact c this
+
+/-- **`sys_panics_iff`, class (E)**: over a linearly ordered field, with the model's inf-norm and
+    any tolerance test, for Jacobian calls that return well-formed matrices: the run PANICS if and
+    only if, after `k < maxIter` full Newton steps none of which met the tolerance, at the point
+    `c` reached: the residual `f c` is empty, or the Jacobian call panics, or the Jacobian is not
+    square of the order of the residual, or the Jacobian is SINGULAR (`det = 0`), or `c` and the
+    step have different lengths (`StepPanics`).  In every other case the run returns
+    (`sys_success_char`, `sys_failure_carries_last` describe what). -/
+theorem sys_panics_iff (f : Array K → Array K) (jacF : Array K → Res (Mat K × List (Array K)))
+    (hWF : ∀ x J jtr, jacF x = .ok (J, jtr) → J.WF) (leTol : K → Bool)
+    (n : Nat) (guess : Array K) (tr : List (Array K)) :
+    (∃ e, solveSys f jacF Vec.normInf leTol n guess tr = .error e) ↔
+      ∃ k c, k < n ∧ Chain f jacF Vec.normInf leTol k guess c ∧ StepPanics f jacF c := by
+  constructor
+  · rintro ⟨e, h⟩
+    obtain ⟨k, c, hk, hc, hs⟩ := (sys_panics_iff_struct f jacF Vec.normInf leTol e n guess tr).1 h
+    exact ⟨k, c, hk, hc, (stepFails_iff f jacF c (hWF c)).1 ⟨e, hs⟩⟩
+  · rintro ⟨k, c, hk, hc, hs⟩
+    obtain ⟨e, he⟩ := (stepFails_iff f jacF c (hWF c)).2 hs
+    exact ⟨e, (sys_panics_iff_struct f jacF Vec.normInf leTol e n guess tr).2 ⟨k, c, hk, hc, he⟩⟩
+
+/-- when an iteration of the FINITE-DIFFERENCE system method panics: the residual is empty, or
+    it has a different length than the point (the Jacobian is `|f x| × |x|`: not square, or the
+    update has the wrong length), or the Jacobian call panics (`f` changes its output size at a
+    perturbed point, or `delta = 0`: see `C18.jacobian_rejects_size_change_at`,
+    `C18.jacobian_delta_zero_rejects`), or the Jacobian is singular -/
+def StepPanicsFD (f : Array K → Array K) (delta : K) (x : Array K) : Prop :=
+  (f x).size = 0 ∨ (f x).size ≠ x.size ∨ (∃ e, jacobian f x delta = .error e) ∨
+  ∃ J jtr, jacobian f x delta = .ok (J, jtr) ∧ detOf J = 0
+
+theorem stepPanics_fd_iff (f : Array K → Array K) (delta : K) (x : Array K) :
+    StepPanics f (fun x => jacobian f x delta) x ↔ StepPanicsFD f delta x := by
+  constructor
+  · rintro (h | ⟨e, h⟩ | ⟨J, jtr, hj, hc⟩)
+    · exact .inl h
+    · exact .inr (.inr (.inl ⟨e, h⟩))
+    · obtain ⟨_, hr, hcol⟩ := jacobian_ok_wf f x delta J jtr hj
+      rcases hc with c | c | c | c
+      · exact absurd hr c
+      · exact .inr (.inl (by rw [← hr, ← hcol]; exact c))
+      · exact .inr (.inr (.inr ⟨J, jtr, hj, c⟩))
+      · exact .inr (.inl (by rw [← hr]; exact fun h => c h.symm))
+  · rintro (h | h | ⟨e, h⟩ | ⟨J, jtr, hj, hc⟩)
+    · exact .inl h
+    · cases hj : jacobian f x delta with
+      | error e => exact .inr (.inl ⟨e, hj⟩)
+      | ok p =>
+        obtain ⟨J, jtr⟩ := p
+        obtain ⟨_, hr, hcol⟩ := jacobian_ok_wf f x delta J jtr hj
+        exact .inr (.inr ⟨J, jtr, hj, .inr (.inl (by rw [hr, hcol]; exact h))⟩)
+    · exact .inr (.inl ⟨e, h⟩)
+    · exact .inr (.inr ⟨J, jtr, hj, .inr (.inr (.inl hc))⟩)
+
+/-- **`sys_panics_iff` for the finite-difference method** (`Newton<Vec64>::solve`): no
+    hypothesis on `f` at all -/
+theorem sys_panics_iff_fd (f : Array K → Array K) (delta : K) (leTol : K → Bool)
+    (n : Nat) (guess : Array K) (tr : List (Array K)) :
+    (∃ e, solveSys f (fun x => jacobian f x delta) Vec.normInf leTol n guess tr = .error e) ↔
+      ∃ k c, k < n ∧ Chain f (fun x => jacobian f x delta) Vec.normInf leTol k guess c ∧
+        StepPanicsFD f delta c := by
+  rw [sys_panics_iff f (fun x => jacobian f x delta)
+    (fun x J jtr h => (jacobian_ok_wf f x delta J jtr h).1) leTol n guess tr]
+  constructor
+  · rintro ⟨k, c, hk, hc, hs⟩
+    exact ⟨k, c, hk, hc, (stepPanics_fd_iff f delta c).1 hs⟩
+  · rintro ⟨k, c, hk, hc, hs⟩
+    exact ⟨k, c, hk, hc, (stepPanics_fd_iff f delta c).2 hs⟩
+
+/-- **an empty guess makes the finite-difference method panic** (any `f`, any positive budget):
+    the residual is empty, or it is not and then the `|f x| × 0` Jacobian is not square -/
+theorem sys_fd_empty_guess_panics (f : Array K → Array K) (delta : K) (leTol : K → Bool)
+    (n : Nat) (guess : Array K) (tr : List (Array K)) (hg : guess.size = 0) :
+    ∃ e, solveSys f (fun x => jacobian f x delta) Vec.normInf leTol (n + 1) guess tr = .error e := by
+  rw [sys_panics_iff_fd]
+  refine ⟨0, guess, Nat.succ_pos n, Chain.refl _, ?_⟩
+  by_cases h : (f guess).size = 0
+  · exact .inl h
+  · exact .inr (.inl (by rw [hg]; exact h))
+
+end SysPanicE
+
+/-! ### C. an exact root with a singular Jacobian -/
+section FixedPointSingular
+variable {K : Type} [Field K] [LinearOrder K]
+attribute [local instance] Ohsl.Alg.scalarExt
+
+/-- **the guess is an exact root but the Jacobian there is singular: the run PANICS** (generic
+    norm / tolerance test).  For ANY `f`: if `f x0` is the zero vector of length `n ≥ 1`, the
+    Jacobian call at `x0` returns a well-formed `n × n` matrix `J` and `det J = 0`, then
+    `solve_basic J (f x0)` fails although the system `J dx = 0` is consistent, hence the first
+    iteration panics and so does every run with `maxIter ≥ 1` — the code does not notice that the
+    residual of the guess is already zero, because the stopping test comes after the linear
+    solve.  Only `maxIter = 0` returns (`Err(x0)`).  This is the complement of
+    `newton_sys_fixed_point_gen`, whose hypothesis `hsolve` fails here.  (`x0.size` plays no role:
+    the panic precedes the update.) -/
+theorem newton_sys_fixed_point_singular_gen {R : Type} (f : Array K → Array K)
+    (jacF : Array K → Res (Mat K × List (Array K)))
+    (normInf : Array K → Res R) (leTol : R → Bool) (n : Nat) (hn : 1 ≤ n)
+    (x0 : Array K) (hroot : f x0 = Array.replicate n 0)
+    {J : Mat K} {jtr : List (Array K)} (hjac : jacF x0 = .ok (J, jtr)) (hJ : Mat.WFn J n)
+    (hdet : Matrix.det (Matrix.of fun (i j : Fin n) => Mat.ent J i.val j.val) = 0)
+    (tr : List (Array K)) :
+    (∃ e, Mat.solveBasic J (f x0) = .error e) ∧
+    StepFails f jacF normInf x0 ∧
+    (∀ maxIter, 1 ≤ maxIter → ∃ e, solveSys f jacF normInf leTol maxIter x0 tr = .error e) ∧
+    solveSys f jacF normInf leTol 0 x0 tr = .ok (⟨false, x0⟩, tr) := by
+  have hb : (f x0).size = n := by rw [hroot]; simp
+  have hsb : ∃ e, Mat.solveBasic J (f x0) = .error e := by
+    cases h : Mat.solveBasic J (f x0) with
+    | error e => exact ⟨e, rfl⟩
+    | ok dx => exact absurd hdet (C01.solveBasic_nonsingular hn hJ.is hb h)
+  obtain ⟨e, he⟩ := hsb
+  have hfail : StepFails f jacF normInf x0 := by
+    cases h1 : normInf (f x0) with
+    | error e' => exact ⟨e', .inl h1⟩
+    | ok r => exact ⟨e, .inr (.inr (.inl ⟨r, J, jtr, h1, hjac, he⟩))⟩
+  refine ⟨⟨e, he⟩, hfail, ?_, rfl⟩
+  intro maxIter hm
+  obtain ⟨k, rfl⟩ : ∃ k, maxIter = k + 1 := ⟨maxIter - 1, by omega⟩
+  obtain ⟨e', he'⟩ := hfail
+  exact ⟨e', sys_step_error f jacF normInf leTol k x0 tr he'⟩
+
+/-- **… with the model's norm and tolerance test**: the residual norm of the guess is computed
+    (`0`), the Jacobian is computed, and the panic is the one of `solve_basic` on the singular
+    matrix (same error class), for every `maxIter ≥ 1`, every `tol`. -/
+theorem newton_sys_fixed_point_singular [Transc K]
+    (f : Array K → Array K) (jacF : Array K → Res (Mat K × List (Array K)))
+    (tol : K) (n : Nat) (hn : 1 ≤ n)
+    (x0 : Array K) (hroot : f x0 = Array.replicate n 0)
+    {J : Mat K} {jtr : List (Array K)} (hjac : jacF x0 = .ok (J, jtr)) (hJ : Mat.WFn J n)
+    (hdet : Matrix.det (Matrix.of fun (i j : Fin n) => Mat.ent J i.val j.val) = 0) :
+    ∃ e, Mat.solveBasic J (f x0) = .error e ∧
+      ∀ maxIter, 1 ≤ maxIter →
+        solveSys f jacF Vec.normInf (fun r => Transc.le r tol) maxIter x0 [] = .error e := by
+  obtain ⟨⟨e, he⟩, _⟩ := newton_sys_fixed_point_singular_gen f jacF Vec.normInf
+    (fun r => Transc.le r tol) n hn x0 hroot hjac hJ hdet []
+  refine ⟨e, he, ?_⟩
+  intro maxIter hm
+  obtain ⟨k, rfl⟩ : ∃ k, maxIter = k + 1 := ⟨maxIter - 1, by omega⟩
+  obtain ⟨r, hr⟩ := normInf_total (v := f x0) (by rw [hroot]; simpa using hn)
+  exact sys_step_error f jacF Vec.normInf _ k x0 [] (.inr (.inr (.inl ⟨r, J, jtr, hr, hjac, he⟩)))
+
+/-- **… with the finite-difference Jacobian**: if the difference quotients at the root happen to
+    form a singular matrix the run panics as well -/
+theorem newton_sys_fixed_point_singular_fd [Transc K]
+    (f : Array K → Array K) (delta tol : K) (n : Nat) (hn : 1 ≤ n)
+    (x0 : Array K) (hx : x0.size = n) (hroot : f x0 = Array.replicate n 0)
+    {J : Mat K} {jtr : List (Array K)} (hjac : jacobian f x0 delta = .ok (J, jtr))
+    (hdet : Matrix.det (Matrix.of fun (i j : Fin n) => Mat.ent J i.val j.val) = 0) :
+    ∃ e, Mat.solveBasic J (f x0) = .error e ∧
+      ∀ maxIter, 1 ≤ maxIter →
+        solveSys f (fun x => jacobian f x delta) Vec.normInf (fun r => Transc.le r tol) maxIter x0 []
+          = .error e := by
+  obtain ⟨hw, hr, hc⟩ := jacobian_ok_wf f x0 delta J jtr hjac
+  have hJ : Mat.WFn J n := ⟨hw, by rw [hr, hroot]; simp, by rw [hc, hx]⟩
+  exact newton_sys_fixed_point_singular f (fun x => jacobian f x delta) tol n hn x0 hroot hjac hJ hdet
+
+end FixedPointSingular
+
+/-! ### examples (non-vacuity) -/
+section Examples
+attribute [local instance] Ohsl.Alg.scalarExt
+
+/-- the complex loop over ℚ[i] (with `sqrt := id`, so `abs z = re² + im²`), `f z = z`, `δ = 1`,
+    `tol = 0`, guess `1`: the first step (`dx = 1`) fails the test and lands on `0`, the second
+    (`dx = 0`) passes.  Budget 2: `Ok(0)` after 6 evaluations (the hypothesis of
+    `cx_success_char(_strong)` holds); budget 1: `Err(0)` after 3 (`cx_failure_carries_last`). -/
+example : ∃ (_ : Transc ℚ),
+    (solveCx (K := ℚ) (fun z => z) 0 1 2 ⟨1, 0⟩ []).1.ok = true ∧
+    (solveCx (K := ℚ) (fun z => z) 0 1 2 ⟨1, 0⟩ []).1.x.re = 0 ∧
+    (solveCx (K := ℚ) (fun z => z) 0 1 2 ⟨1, 0⟩ []).2.length = 6 ∧
+    (solveCx (K := ℚ) (fun z => z) 0 1 1 ⟨1, 0⟩ []).1.ok = false ∧
+    (solveCx (K := ℚ) (fun z => z) 0 1 1 ⟨1, 0⟩ []).1.x.re = 0 ∧
+    (solveCx (K := ℚ) (fun z => z) 0 1 1 ⟨1, 0⟩ []).2.length = 3 :=
+  ⟨transcQ, by decide +kernel, by decide +kernel, by decide +kernel, by decide +kernel,
+    by decide +kernel, by decide +kernel⟩
+
+/-- the same for the real loop: `f x = x`, guess `1`, `tol = 0` -/
+example : ∃ (_ : Transc ℚ),
+    (solveScalar (K := ℚ) (fun x => x) 0 1 2 1 []).1.ok = true ∧
+    (solveScalar (K := ℚ) (fun x => x) 0 1 2 1 []).1.x = 0 ∧
+    (solveScalar (K := ℚ) (fun x => x) 0 1 1 1 []).1.ok = false ∧
+    (solveScalar (K := ℚ) (fun x => x) 0 1 1 1 []).1.x = 0 :=
+  ⟨transcQ, by decide +kernel, by decide +kernel, by decide +kernel, by decide +kernel⟩
+
+/-- **`newton_sys_fixed_point_singular`, concretely**: `F(x, y) = (x², y)` over ℚ with its
+    analytic Jacobian `[[2x, 0], [0, 1]]`, started at the exact root `(0, 0)`: `F(0, 0) = (0, 0)`,
+    the Jacobian there is `[[0, 0], [0, 1]]`, singular — every run with `maxIter ≥ 1` panics
+    although the guess already solves the system. -/
+example : ∃ (_ : Transc ℚ) (f : Array ℚ → Array ℚ)
+    (jacF : Array ℚ → Res (Mat ℚ × List (Array ℚ))) (e : Err),
+    f #[0, 0] = #[0, 0] ∧
+    ∀ maxIter, 1 ≤ maxIter →
+      solveSys f jacF Vec.normInf (fun r => Transc.le r (1 / 100)) maxIter #[0, 0] [] = .error e := by
+  letI : Transc ℚ := transcQ
+  have key := newton_sys_fixed_point_singular (K := ℚ)
+    (fun x => #[x.getD 0 0 * x.getD 0 0, x.getD 1 0])
+    (fun x => .ok (⟨#[2 * x.getD 0 0, 0, 0, 1], 2, 2⟩, [])) (1 / 100) 2 (by decide) #[0, 0]
+    (by decide +kernel) (J := ⟨#[2 * 0, 0, 0, 1], 2, 2⟩) (jtr := []) rfl ⟨rfl, rfl, rfl⟩
+    (by rw [Matrix.det_fin_two]; simp [Mat.ent])
+  obtain ⟨e, _, h⟩ := key
+  exact ⟨transcQ, _, _, e, by decide +kernel, h⟩
+
+/-- **… and with the finite-difference Jacobian**: `F(x, y) = (x + y, x + y)` at the root
+    `(0, 0)`, `δ = 1`: the difference quotients are exact (`C18.jacobian_affine`), the Jacobian
+    `[[1, 1], [1, 1]]` is singular, every run with `maxIter ≥ 1` panics. -/
+example : ∃ (_ : Transc ℚ) (e : Err), ∀ maxIter, 1 ≤ maxIter →
+    solveSys (affineRes (fun _ _ => (1 : ℚ)) (fun _ => 0) 2)
+      (fun x => jacobian (affineRes (fun _ _ => (1 : ℚ)) (fun _ => 0) 2) x 1) Vec.normInf
+      (fun r => Transc.le r (1 / 100)) maxIter #[0, 0] [] = .error e := by
+  letI : Transc ℚ := transcQ
+  have hroot : affineRes (fun _ _ => (1 : ℚ)) (fun _ => 0) 2 #[0, 0] = Array.replicate 2 0 :=
+    affineRes_root ⟨rfl, fun i hi => by simp [Finset.sum_range_succ]⟩
+  obtain ⟨J, jtr, hj, _, hI⟩ := C18.jacobian_affine (fun _ _ => (1 : ℚ)) (fun i => -(fun _ => (0 : ℚ)) i) 2
+    #[0, 0] 1 one_ne_zero
+  have hdet : Matrix.det (Matrix.of fun (i j : Fin 2) => Mat.ent J i.val j.val) = 0 := by
+    have := C01.det_ent_eq hI
+    simp only [Mat.toMat] at this
+    rw [this, Matrix.det_fin_two]
+    simp
+  obtain ⟨e, _, h⟩ := newton_sys_fixed_point_singular_fd (K := ℚ)
+    (affineRes (fun _ _ => (1 : ℚ)) (fun _ => 0) 2) 1 (1 / 100) 2 (by decide) #[0, 0] rfl hroot hj hdet
+  exact ⟨transcQ, e, h⟩
+
+/-- the right-hand side of `sys_panics_iff` at `k = 0` for the first example: the Jacobian at
+    the guess is singular (`StepPanics`, third disjunct) -/
+example : StepPanics (K := ℚ) (fun x => #[x.getD 0 0 * x.getD 0 0, x.getD 1 0])
+    (fun x => .ok (⟨#[2 * x.getD 0 0, 0, 0, 1], 2, 2⟩, [])) #[0, 0] := by
+  refine .inr (.inr ⟨_, _, rfl, .inr (.inr (.inl ?_))⟩)
+  show Matrix.det (Matrix.of fun (i j : Fin 2) => Mat.ent (K := ℚ) ⟨#[2 * 0, 0, 0, 1], 2, 2⟩ i.val j.val) = 0
+  rw [Matrix.det_fin_two]
+  simp [Mat.ent]
+
+end Examples
 
 end Ohsl.Props.C17
